@@ -112,6 +112,19 @@ def r14_2(ctx):
     ctx.run_rule("R14.2", "each algorithm is served by the codec family of that name", body, floor=6)
 
 
+def _buf(x, names=("get_mut", "get_ref")):
+    """the codec's output buffer: `codec.get_mut()` / `get_ref()`, also through a function item handed to a helper"""
+    if not (isinstance(x, tuple) and x and x[0] == "call"):
+        return False
+    if x[1].rsplit("::", 1)[-1] in names and x[2] and _mentions_self(x[2][0]):
+        return True
+    if x[1].rsplit("::", 1)[-1] in ("call_once", "call_mut", "call") and len(x[2]) == 2 and isinstance(x[2][0], tuple):
+        fn = x[2][0][1] if x[2][0][0] == "const" else x[2][0]
+        if isinstance(fn, tuple) and fn and fn[0] == "fn" and fn[1].rsplit("::", 1)[-1] in names:
+            return _mentions_self(x[2][1])
+    return False
+
+
 def _payload(x):
     """does the expression denote (a reference into) the codec held by self's variant payload"""
     return _mentions_self(x)
@@ -148,25 +161,25 @@ def r14_4(ctx):
                     n_ok += 1
                     out = ret[3][0][1]
                     # (a) the whole chunk is written
-                    wa = [e for e in p.events if e[0] == "call" and e[1].endswith("Write>::write_all") and _payload(e[2][0]) and mentions(e[2][1], lambda y: y == ("param", 2))]
-                    partial = [e for e in p.events if e[0] == "call" and e[1].endswith("Write>::write") and _payload(e[2][0])]
+                    wa = [e for e in p.events if e[0] == "call" and e[1].endswith("::write_all") and _payload(e[2][0]) and mentions(e[2][1], lambda y: y == ("param", 2))]
+                    partial = [e for e in p.events if e[0] == "call" and e[1].endswith("::write") and _payload(e[2][0])]
                     if not wa or partial:
                         bad.append("the chunk is not handed to write_all of the codec on a normal return (%s)" % ("uses write()" if partial else "no write_all"))
                     # (b) what is returned is removed from the codec's buffer
                     kind = None
                     if out[0] == "local":
-                        sw = [e for e in p.events if e[0] == "call" and e[1] == "std::mem::swap" and out in e[2] and any(_is_call(a, ["::get_mut"]) and _payload(a) for a in e[2])]
+                        sw = [e for e in p.events if e[0] == "call" and e[1] == "std::mem::swap" and out in e[2] and any(_buf(a, ("get_mut",)) for a in e[2])]
                         ini = [e for e in p.events if e[0] in ("init", "set") and e[1] == out[1]]
                         if sw and ini and _is_call(ini[0][3], EMPTY_VEC):
                             kind = "swapped-out"
-                    if kind is None and mentions(out, lambda y: y[0] == "call" and y[1] in TAKERS and y[2] and _is_call(y[2][0], ["::get_mut"]) and _payload(y[2][0])):
+                    if kind is None and mentions(out, lambda y: y[0] == "call" and y[1] in TAKERS and y[2] and _buf(y[2][0], ("get_mut",))):
                         kind = "taken"
                     if kind is None and _is_call(out, EMPTY_VEC):
-                        em = [val for a, val in p.conds if a[0] == "call" and a[1] == "std::vec::Vec::is_empty" and _is_call(a[2][0], ["::get_ref", "::get_mut"]) and _payload(a[2][0])]
+                        em = [val for a, val in p.conds if a[0] == "call" and a[1] == "std::vec::Vec::is_empty" and _buf(a[2][0])]
                         if em and em[0] == 1:
                             kind = "empty-when-buffer-empty"
-                    if kind is None and mentions(out, lambda y: y[0] == "call" and (y[1].endswith("Clone>::clone") or y[1].endswith("::to_vec")) and y[2] and _is_call(y[2][0], ["::get_ref", "::get_mut"])):
-                        cl = [e for e in p.events if e[0] == "call" and e[1] in ("std::vec::Vec::clear", "std::vec::Vec::truncate") and _is_call(e[2][0], ["::get_mut"]) and _payload(e[2][0])]
+                    if kind is None and mentions(out, lambda y: y[0] == "call" and (y[1].endswith("Clone>::clone") or y[1].endswith("::to_vec")) and y[2] and _buf(y[2][0])):
+                        cl = [e for e in p.events if e[0] == "call" and e[1] in ("std::vec::Vec::clear", "std::vec::Vec::truncate") and _buf(e[2][0], ("get_mut",))]
                         if cl:
                             kind = "copied-then-cleared"
                     if kind is None:
